@@ -184,6 +184,16 @@ Definition rcase_ok (c : rcase) : bool :=
 Definition rcase_wf (c : rcase) : bool :=
   let '(g, fresh, tbl, ci, inputs) := c in
   match run_gen g fresh with inl m => ir_wf m | inr _ => true end.
+(* the hypotheses of C15_action_receives_the_span_of_the_match on every method whose alternatives ask for LOCATIONS:
+   it captures the start position at entry and is not a loop helper *)
+Definition meth_loc_ok (m : meth) : bool :=
+  if existsb a_locations (m_alts m) then m_locations m && negb (m_loop m) else true.
+Definition rcase_loc (c : rcase) : bool :=
+  let '(g, fresh, tbl, ci, inputs) := c in
+  match run_gen g fresh with inl m => forallb meth_loc_ok (i_meths m) | inr _ => true end.
+Definition rcase_has_loc (c : rcase) : bool :=
+  let '(g, fresh, tbl, ci, inputs) := c in
+  match run_gen g fresh with inl m => existsb (fun m => existsb a_locations (m_alts m)) (i_meths m) | inr _ => false end.
 Fixpoint idx_filter {A} (f : A -> bool) (i : nat) (l : list A) : list nat :=
   match l with [] => [] | x :: l' => if f x then idx_filter f (S i) l' else i :: idx_filter f (S i) l' end.
 Definition rcase_diag (c : rcase) : list (nat * list nat) :=
@@ -258,7 +268,7 @@ OK = "rcase_ok"
 
 # ---------------------------------------------------------------- shared driver for the run-based checks
 def krun(chk, pid: str, grammar_texts: list[str], inputs_for, configs=("q1",), call_invalid=False, shard=8,
-         per_input_limit=0.5, want_cases=True, unreachable=None):
+         per_input_limit=0.5, want_cases=True, unreachable=None, extra_preds=()):
     """Runs the real parsers (traced) and, if want_cases, the Coq model on the same cases.
     Returns [(grammar text, runner result)] for the property-specific oracle of the caller."""
     import tables
@@ -313,6 +323,10 @@ def krun(chk, pid: str, grammar_texts: list[str], inputs_for, configs=("q1",), c
                      len(cases) - len(nwf))
             chk.bump("explored grammars outside ir_wf (a lookahead directly over a forced item: the recorded C01 finding)", len(nwf))
             krun.not_wf = [descs[i] for i in nwf]
+        for nm, pred, text in extra_preds:
+            bad = common.run_cases(chk, nm, prelude(tokens_set()), CASE_T, wf_cases, pred, shard=max(shard, 40), timeout=900)
+            if bad is not None:
+                text(len(wf_cases), [descs[i] for i in bad])
     return pairs
 
 
